@@ -757,6 +757,14 @@ def c12_corpus(tier, seed):
                 add('struct', TU0, [('S', 'named' if tr < 'H' else 'tuple', fs, False)], [(tr, mode)], hand=hand)
             else:
                 add('enum', TU0, [('A', 'tuple', fs, tr == 'Default'), ('B', 'unit', [], False)], [(tr, mode)], hand=hand)
+    # inline bounds whose trait merely shares its last path segment with the educed trait (a user trait called Debug, `Into<u16>` next to
+    # `Into<u8>`): `bound(*)` still has to add its own predicate for that parameter
+    for tr in ['Debug', 'Clone', 'Hash', 'PartialEq', 'Default']:
+        role = {'Clone': 'method', 'Default': 'expr'}.get(tr, 'ignore')
+        ps = [('type', 'T', f'userlib::{tr}', None), ('type', 'U', None, None)]
+        add('struct', ps, [('S', 'named', [Field(T, **{tr: role}), Field(PH(U), **{tr: role})], False)], [(tr, '*')])
+        add('enum', ps, [('A', 'tuple', [Field(T), Field(U, **{tr: role})], tr == 'Default'), ('B', 'unit', [], False)], [(tr, '*')])
+    add('struct', [('type', 'T', '::core::convert::Into<u16>', None), ('type', 'U', None, None)], [('S', 'named', [Field(T, Into='intom'), Field(U)], False)], [('Into', '*')])
     # per-target bounds on Into
     for m in [None, '*', ('list', 'T: ::core::convert::Into<u8>'), ('str', 'T: ::core::convert::Into<u8>, U: ::core::clone::Clone')]:
         add('struct', [('type', 'T', None, None), ('type', 'U', None, None)], [('S', 'named', [Field(T, Into='into'), Field(U)], False)], [('Into', m)])
@@ -839,6 +847,7 @@ use educe::Educe;
 use core::cmp::Ordering;
 pub trait Marker {}
 pub trait Marker2 {}
+pub mod userlib { pub trait Debug {} pub trait Clone {} pub trait Hash {} pub trait PartialEq {} pub trait Default {} }
 pub struct NoImpl;
 pub fn any_fmt<T>(_v: &T, f: &mut core::fmt::Formatter<'_>) -> core::fmt::Result { f.write_str("?") }
 pub fn any_clone<T>(_v: &T) -> T { loop {} }
@@ -890,6 +899,7 @@ def arg_type_decl(name, traits):
             s += f'impl Into<u16> for {name} {{ fn into(self) -> u16 {{ 0 }} }}\n'
         elif t == 'Marker':
             s += f'impl Marker for {name} {{}}\nimpl Marker2 for {name} {{}}\n'
+            s += ''.join(f'impl userlib::{u} for {name} {{}}\n' for u in ('Debug', 'Clone', 'Hash', 'PartialEq', 'Default'))
     return s
 
 
@@ -1133,7 +1143,7 @@ def main(prop, tier, seed, keep=False):
     rng = random.Random(seed * 977 + 1)
     for i, (req, tr, mode, inst, f_says) in enumerate(sat_cases[:12]):
         pr.add_req(req, f'v{i}')
-        if 'Marker' in req.header() or 'Marker' in (req.where or ''):
+        if 'Marker' in req.header() or 'Marker' in (req.where or '') or 'userlib' in req.header():
             inst = {p: ts + ['Marker'] for p, ts in inst.items()}   # the header's own marker bounds are assumed by the query (well-formedness)
         args = {p: pr.argtype(ts) for p, ts in inst.items()}
         tpath = TPATH['IntoU8'] if tr == 'Into' else TPATH['IntoU16'] if tr == 'Into16' else (TPATH.get(tr) or f'::core::ops::{tr}')
@@ -1152,7 +1162,7 @@ def main(prop, tier, seed, keep=False):
             if tr in ('Deref', 'DerefMut'):
                 continue
             inst = {p: [t for t in ALLT if rng.random() < 0.5] for p in req.type_params()}
-            if 'Marker' in req.header() or 'Marker' in (req.where or ''):
+            if 'Marker' in req.header() or 'Marker' in (req.where or '') or 'userlib' in req.header():
                 inst = {p: ts + ['Marker'] for p, ts in inst.items()}
             # the instantiated type must be well-formed: satisfy the type's own inline bounds
             for k_, n_, b_, d_ in req.params:
